@@ -103,7 +103,7 @@ def run_property(pid, tier="quick", seed=0, verbose=False):
     n_obl = len(results)
     discharged = [d for d in results if d["verdict"] == "discharged"]
     failed = [d for d in results if d["verdict"] != "discharged"]
-    unsupported = [r for r in reports if r.status in ("unsupported", "missing", "vacuous")]
+    unsupported = [r for r in reports if r.status in ("unsupported", "missing", "vacuous", "engine_error")]
     present = {d["oid"] for d in results}
     dropped = sorted(o for o in lock if o not in present and not any(function_of(o) == r.name for r in unsupported))
 
